@@ -194,6 +194,46 @@ func (k *kleeneEval) top(pred *Node) string {
 	return out
 }
 
+// existsOracle derives the outcome of exists(e) from Query(e) alone ("" = not decidable here).
+func (k *kleeneEval) existsOracle(e *Node) string {
+	p := &Path{Strict: k.c.Strict, Root: atToRoot(e, 0)}
+	if !p.Strict && e.K == KUn && e.S != "!" && e.Next == nil {
+		return "" // open finding D17b: lax existence mode of a chain-less unary sign
+	}
+	pr, err := prepare(ExecCase{Path: p.Canon(), Doc: k.doc, Opts: k.c.Opts})
+	if err != nil || pr.orderOpen() {
+		return ""
+	}
+	vb := RunQuery(pr.ctx, pr.p, pr.doc, pr.opts(false)...)
+	si := RunQuery(pr.ctx, pr.p, pr.doc, pr.opts(true)...)
+	if vb.Panic != "" || si.Panic != "" || isD9(vb.Err) || isD9(si.Err) {
+		return ""
+	}
+	if p.Strict {
+		switch vb.Class {
+		case EOK:
+			return boolOutcome(len(vb.Items) > 0)
+		case ESupp:
+			return "U"
+		case EHard:
+			return "H"
+		}
+		return ""
+	}
+	// lax: true as soon as one item is found, before any later failure
+	switch {
+	case si.Class == EOK && len(si.Items) > 0:
+		return "T"
+	case vb.Class == EOK:
+		return "F"
+	case vb.Class == ESupp:
+		return "U"
+	case vb.Class == EHard:
+		return "H"
+	}
+	return ""
+}
+
 // inFilter evaluates the same predicate as a filter condition on $.
 func (k *kleeneEval) inFilter(pred *Node) string {
 	run := func(cond *Node) (int, string) {
@@ -250,6 +290,19 @@ func checkKleeneFacts(c KleeneCase) (*Violation, kleeneFacts) {
 	if op == "?" || oq == "?" || k.open {
 		f.open = k.open
 		return nil, f
+	}
+	// exists(e) is true or false by the emptiness of e and unknown only when e fails
+	for _, x := range []struct {
+		n *Node
+		o string
+	}{{p, op}, {q, oq}} {
+		if x.n.K != KExists {
+			continue
+		}
+		if want := k.existsOracle(x.n.A); want != "" && want != x.o {
+			pp := &Path{Strict: c.Strict, Root: atToRoot(x.n, 0)}
+			return violf("%q on %s evaluates to %s, but its operand's own evaluation makes it %s", pp.Canon(), k.doc, x.o, want), f
+		}
 	}
 	and := func(a, b *Node) *Node { return &Node{K: KBin, S: "&&", A: a.Clone(), B: b.Clone()} }
 	or := func(a, b *Node) *Node { return &Node{K: KBin, S: "||", A: a.Clone(), B: b.Clone()} }
@@ -349,8 +402,13 @@ func truthTableCases() []KleeneCase {
 		nested(gt(&Node{K: KCur}, &Node{K: KStr, S: "x"})),                                           // U/F inside a nested filter
 		nested(eq(&Node{K: KCur}, &Node{K: KCur})),                                                   // T when @.a exists
 		eq(&Node{K: KCur, Next: &Node{K: KKey, S: "a"}}, &Node{K: KCur, Next: &Node{K: KKey, S: "a"}}), // uses @ twice
+		// exists over multi-item producers followed by a rejecting filter, and exists nested in exists
+		&Node{K: KExists, A: &Node{K: KCur, Next: &Node{K: KKey, S: "a", Next: &Node{K: KIdx, Subs: []Sub{{From: lit(0)}, {From: lit(1)}}, Next: &Node{K: KFilter, A: eq(&Node{K: KCur}, lit(1))}}}}},
+		&Node{K: KExists, A: &Node{K: KCur, Next: &Node{K: KKey, S: "a", Next: &Node{K: KAnyArr, Next: &Node{K: KFilter, A: &Node{K: KExists, A: &Node{K: KCur, Next: &Node{K: KFilter, A: eq(&Node{K: KCur}, lit(1))}}}}}}}},
+		&Node{K: KExists, A: &Node{K: KCur, Next: &Node{K: KAny, First: 0, Last: -1, Next: &Node{K: KKey, S: "x"}}}},
+		&Node{K: KExists, A: &Node{K: KCur, Next: &Node{K: KKey, S: "a", Next: &Node{K: KMethod, S: "keyvalue", Next: &Node{K: KFilter, A: eq(&Node{K: KCur, Next: &Node{K: KKey, S: "key"}}, &Node{K: KStr, S: "x"})}}}}},
 	}
-	docs := []string{`1`, `"abc"`, `[1,"a"]`, `null`, `{"x":1}`}
+	docs := []string{`1`, `"abc"`, `[1,"a"]`, `null`, `{"x":1}`, `[{"p":{"x":1}},{"q":2}]`, `[2,1]`}
 	var out []KleeneCase
 	for _, a := range ops {
 		for _, b := range ops {
